@@ -47,6 +47,7 @@ type sessIn struct {
 
 const byTopic = "by"
 const byChan = "ch"
+const byEph = "bce#ephemeral" // an ephemeral channel the bystander shares with hostile connections
 
 var byInfo = infoIn{"bystander", 4150, 4151, "1.3.0"}
 
@@ -112,6 +113,21 @@ func genStream(r *lib.Rand) streamB {
 		return s
 	}
 	puts("  V1")
+	if kind < 22 {
+		// a well-formed visitor on the bystander's topic and its shared #ephemeral channel:
+		// registers, unregisters (or just leaves); the bystander's registration must survive
+		put(identifyBytes(goodIdentifyBody(r))...)
+		puts("REGISTER " + byTopic + " " + byEph + "\n")
+		s.expect, s.class = "OK", "shared-ephemeral-register-eof"
+		if r.Chance(75) {
+			puts("UNREGISTER " + byTopic + " " + byEph + "\n")
+			s.class = "shared-ephemeral-register-unregister"
+		}
+		if r.Chance(30) {
+			puts("UNREGISTER " + byTopic + " " + byEph + "\n") // a second time: never-registered now
+		}
+		return s
+	}
 	identified := false
 	// a valid prefix
 	if r.Chance(55) {
@@ -122,7 +138,7 @@ func genStream(r *lib.Rand) streamB {
 		identified = true
 		for i, n := 0, r.Intn(4); i < n; i++ {
 			t := []string{byTopic, "ht1", "heph#ephemeral"}[r.Intn(3)]
-			c := []string{"", byChan, "hc#ephemeral"}[r.Intn(3)]
+			c := []string{"", byChan, "hc#ephemeral", byEph}[r.Intn(4)]
 			verb := []string{"REGISTER", "REGISTER", "UNREGISTER", "PING"}[r.Intn(4)]
 			switch {
 			case verb == "PING":
@@ -362,7 +378,8 @@ func genSession(r *lib.Rand, k int) sessIn {
 	s := sessIn{Profile: "hostile", Name: fmt.Sprintf("sess-%d", k)}
 	s.Acts = append(s.Acts,
 		actIn{K: "op", Op: &opIn{K: "identify", Info: &byInfo}},
-		actIn{K: "op", Op: &opIn{K: "register", T: byTopic, C: byChan}})
+		actIn{K: "op", Op: &opIn{K: "register", T: byTopic, C: byChan}},
+		actIn{K: "op", Op: &opIn{K: "register", T: byTopic, C: byEph}})
 	n := 10 + r.Intn(14)
 	for i := 0; i < n; i++ {
 		w := r.Intn(100)
@@ -375,7 +392,7 @@ func genSession(r *lib.Rand, k int) sessIn {
 		case w < 96:
 			s.Acts = append(s.Acts, actIn{K: "op", Op: &opIn{K: "ping"}})
 		default:
-			s.Acts = append(s.Acts, actIn{K: "op", Op: &opIn{K: "register", T: byTopic, C: byChan}})
+			s.Acts = append(s.Acts, actIn{K: "op", Op: &opIn{K: "register", T: byTopic, C: []string{byChan, byEph}[r.Intn(2)]}})
 		}
 	}
 	return s
@@ -420,7 +437,8 @@ func genMatrix(perSession int) []sessIn {
 		if j > len(reqs) {
 			j = len(reqs)
 		}
-		acts := []actIn{{K: "op", Op: &opIn{K: "identify", Info: &byInfo}}, {K: "op", Op: &opIn{K: "register", T: byTopic, C: byChan}}}
+		acts := []actIn{{K: "op", Op: &opIn{K: "identify", Info: &byInfo}}, {K: "op", Op: &opIn{K: "register", T: byTopic, C: byChan}},
+			{K: "op", Op: &opIn{K: "register", T: byTopic, C: byEph}}}
 		for k, a := range reqs[i:j] {
 			acts = append(acts, a)
 			if k%8 == 7 { // the bystander re-registers now and then: deletions must not be the end of it
